@@ -62,7 +62,15 @@ func (check) Plan(tier string, seed int64) []harness.Batch {
 	}
 	for p := 0; p < 16; p++ {
 		s, _ := json.Marshal(spec{Kind: "grammar", N: nGram / 16})
-		bs = append(bs, harness.Batch{Name: fmt.Sprintf("grammar-%d", p), Seed: seed*7919 + int64(p), Spec: s, TimeoutS: 3000})
+		gb := harness.Batch{Name: fmt.Sprintf("grammar-%d", p), Seed: seed*7919 + int64(p), Spec: s, TimeoutS: 3000}
+		if p%2 == 1 {
+			// the consumer recycles every sequence (Finish); one P makes the
+			// sync.Pool hand the recycled slices straight back to the parser
+			s, _ = json.Marshal(spec{Kind: "grammar-finish", N: nGram / 16})
+			gb.Spec, gb.Name = s, fmt.Sprintf("grammar-finish-%d", p)
+			gb.Env = []string{"GOMAXPROCS=1"}
+		}
+		bs = append(bs, gb)
 		s, _ = json.Marshal(spec{Kind: "soup", N: nSoup / 16})
 		bs = append(bs, harness.Batch{Name: fmt.Sprintf("soup-%d", p), Seed: seed*104729 + int64(p), Spec: s, TimeoutS: 3000})
 	}
@@ -113,7 +121,11 @@ func (c check) Run(w *harness.W, b harness.Batch) {
 		}
 		w.Count("exhaustive_strings", int64(total))
 		w.Count("exhaustive_spaces", 1)
-	case "grammar":
+	case "grammar", "grammar-finish":
+		FinishMode = s.Kind == "grammar-finish"
+		if FinishMode {
+			w.Count("finish_mode_batches", 1)
+		}
 		for i := 0; i < s.N; i++ {
 			data := genGrammar(r)
 			runCase(w, data, nil, "grammar", pairs)
@@ -183,9 +195,14 @@ func evalCase(data []byte, chunks []int, pairs map[string]struct{}) (key, detail
 
 // EvalCase runs the real parser on data under the given chunking and end
 // error and judges what it delivers (also used by C08).
+// FinishMode makes the consumer hand every sequence back to the parser with
+// Finish once it has copied it (as vaxis.go, cell.go and widgets/term do), so
+// that the parser's pooled slices are recycled into later sequences.
+var FinishMode bool
+
 func EvalCase(data []byte, chunks []int, endErr error, pairs map[string]struct{}) (key, detail, observed, expected string, timingSensitive bool) {
 	rd := &parserun.Reader{Data: data, Chunks: append([]int(nil), chunks...), EndErr: endErr}
-	obs := parserun.Run(rd, false, 20*time.Second)
+	obs := parserun.Run(rd, FinishMode, 20*time.Second)
 	if obs.Hung {
 		return "lifecycle:no-close-within-bound", "parser did not close its channel after the reader returned EOF", fmt.Sprintf("%d items", obs.Items), "EOF then close", true
 	}
